@@ -1,4 +1,7 @@
 """C01 - canonical output is well-formed ASCII in every component (decided part: see DESIGN.md 4.C01)."""
+from ..rules import queryvar
+from ..rules.kindrules import k1, k2_k3, k5, k_req, make_kinds
+from .C12 import roles
 from .common import quoter_audits, table_checks
 
 
@@ -8,8 +11,17 @@ def run(ctx):
         "set of characters that can be emitted literally, derived from the guards dominating the emission sites, "
         "is within the RFC 3986 set of its component and never contains '%' or space; (EM) every byte appended to "
         "a quoter's output is a guarded literal, a validated upper-case escape or %XX of a byte, and the result is "
-        "ASCII-decoded; (CH2) the compiled quoter cannot drop a unit and return its input unchanged. "
+        "ASCII-decoded; (CH2) the compiled quoter cannot drop a unit and return its input unchanged; (K1/K2/K5/K-REQ/K-PAIR) "
+        "every text accepted by the constructor, build, the with_* modifiers, /, joinpath, join and the query operations "
+        "reaches a user/password/path/query/fragment slot only through a quoter of that role, exactly once, and "
+        "caller-asserted encoding arises only from the documented `encoded` flags. "
         "Not decided: the rewind arithmetic of the escape window; scheme and host positions.")
     pols, cfgs = quoter_audits(ctx)
     table_checks(ctx, pols, cfgs, {"upper", "pct", "term", "plus"})
+    K = make_kinds(ctx.model)
+    k1(ctx, K)
+    k2_k3(ctx, K)
+    k_req(ctx, K)
+    k5(ctx, K)
+    queryvar.pair_quoting(ctx, roles(ctx.model))
     ctx.assumptions += ["the compiled .so is built from the analysed .pyx", "CPython ast / Cython 3.0 parser are correct"]
